@@ -1118,3 +1118,14 @@ theorem sweep_after_sync_marks_nobody (l : LState) (r : RState) (now : Nat)
       | draining => simp
 
 end Varpulis.RaftSync
+
+/-! ## operands of the witness theorems of Props/C38.lean -/
+namespace Varpulis.RaftSync.Witness
+open Varpulis.RaftSync
+
+def w1 : Op := .register "w1" "a1" 4 0 10 0
+def w2 : Op := .register "w2" "a2" 4 0 10 0
+def deployP : Op := .deploy "g" "grp" [⟨"p", "w1", true, "id1"⟩]
+def toW2 : Mig := ⟨"g", "p", "w2", true, "id2"⟩
+
+end Varpulis.RaftSync.Witness
